@@ -202,6 +202,23 @@ def cache_state(obj):
 def prepare(R, spec, L, state, rng):
     if state.startswith('late-'):
         return build_late(R, spec, state == 'late-cached', rng)
+    if state == 'many-consumers':
+        # several iterators opened before the cache is complete, another consumer completes it, then the early ones are
+        # drained: every one of them must still finish (the cache lock is replaced by a guard that reports a re-acquisition
+        # by its owner - which could never return - instead of hanging)
+        from vf import locks
+        obj = build(R, spec, True)
+        obj._cache_lock = locks.GuardLock('_cache_lock')
+        its = [iter(obj) for _ in range(rng.randint(2, 4))]
+        for it in its:
+            for _ in range(rng.randint(0, 12)):
+                if next(it, None) is None:
+                    break
+        list(obj)
+        for it in its:
+            for _ in it:
+                pass
+        return obj
     obj = build(R, spec, state != 'uncached')
     if state == 'partial':
         it = iter(obj)
@@ -234,7 +251,7 @@ def one_query(ctx, spec, sj, L, obj, q, initial):
 def check_object(ctx, R, spec, sj, L, state, rng):
     qs = gen_queries(rng, L)
     try:
-        if state in ('uncached', 'complete', 'fresh-sequence', 'late-cached', 'late-uncached'):
+        if state in ('uncached', 'complete', 'fresh-sequence', 'late-cached', 'late-uncached', 'many-consumers'):
             # one object, all queries in random order: answers must not depend on which queries ran before
             obj = prepare(R, spec, L, 'fresh' if state == 'fresh-sequence' else state, rng)
             for q in qs:
@@ -245,6 +262,10 @@ def check_object(ctx, R, spec, sj, L, state, rng):
                 one_query(ctx, spec, sj, L, prepare(R, spec, L, state, rng), q, state)
     except Exception as e:
         ctx.violation('iteration-raised', {'spec': sj, 'initial_state': state, 'len': len(L)}, '%s: %s' % (type(e).__name__, e))
+    except BaseException as e:
+        if type(e).__name__ != 'SelfDeadlock':
+            raise
+        ctx.violation('deadlock', {'spec': sj, 'initial_state': state, 'len': len(L)}, str(e))
 
 
 def check_replace(ctx, R, kw, rng):
@@ -301,7 +322,7 @@ def run(ctx):
             continue
         ctx.count('objects_' + spec[0])
         ctx.count('len_%d' % min(len(L) // 10 * 10, 30))
-        for state in ('uncached', 'fresh', 'partial', 'complete', 'fresh-sequence'):
+        for state in ('uncached', 'fresh', 'partial', 'complete', 'fresh-sequence', 'many-consumers'):
             check_object(ctx, R, spec, sj, L, state, rng)
         if spec[0] == 'set':
             for state in ('late-cached', 'late-uncached'):
